@@ -1277,8 +1277,19 @@ class PyCdlib:
         old = self._cdfp.tell()
         self._seek_to_extent(eltorito_boot_catalog_extent)
         data = self._cdfp.read(32)
+        num_read = 32
         while not self.eltorito_boot_catalog.parse(data):
-            data = self._cdfp.read(32)
+            sections = self.eltorito_boot_catalog.sections
+            if num_read % self.logical_block_size == 0 and sections and \
+               sections[-1].header_indicator == 0x91 and \
+               len(sections[-1].section_entries) == sections[-1].num_section_entries:
+                # The final section is complete and the catalog fills its
+                # block exactly, so there is no room for an empty terminating
+                # entry; what follows is not part of the catalog.
+                data = b'\x00' * 32
+            else:
+                data = self._cdfp.read(32)
+                num_read += 32
         self._cdfp.seek(old)
 
     def _udf_assign_extents(self, udf_files, current_extent):
